@@ -297,7 +297,7 @@ pub fn install_panic_monitor() {
         } else {
             "?".into()
         };
-        if !info.can_unwind() {
+        if msg.contains("unsafe precondition") || msg.contains("cannot unwind") {
             // the process is about to abort: the runner classifies the stderr tail
             eprintln!("NON-UNWINDING PANIC: {} @ {}", msg, loc);
         }
